@@ -216,6 +216,8 @@ def make_server_factory(resp_by_nonce: Dict[str, dict], sent: Dict[str, tuple], 
             ct = ["application/json", "application/graphql-response+json; charset=utf-8", "text/html; charset=latin-1", None][spec["ctype"] % 4]
             if ct:
                 headers["content-type"] = ct
+            if (spec["knob"] // 7) % 5 == 0 and body:
+                headers["x-sim-encode"] = ["gzip", "deflate"][(spec["knob"] // 35) % 2]     # compressed on the wire
             if spec["status"] in (429, 503, 301, 202, 408, 425):
                 ra = [None, "0", "1", "2", "120", "Wed, 21 Oct 2099 07:28:00 GMT"][(spec["knob"] // 3) % 6]
                 if ra is not None:
@@ -263,6 +265,7 @@ def draw_case(case, ch: Choices):
     cfg["own_transport"] = ch.chance("cfg.own", 1, 3)
     cfg["lat_profile"] = ch.draw("cfg.latp", 3)
     cfg["preempt_den"] = ch.pick("cfg.pden", [1, 3, 9])
+    cfg["debug_logging"] = ch.chance("cfg.debug_logging", 1, 4)
     calls = []
     if p.get("mode") == "enum":
         status = p["status"]
